@@ -952,6 +952,94 @@ def blocks_only_via_edge(body, src, dst):
     return body.live - without
 
 
+def emptied_before_returns(body, field):
+    """Every return of `body` is reached only after the container `field` was emptied: a `clear()` / `drain(..)` on it, or the
+    None edge of a `pop_front()/pop_back()/pop()` on it (the exit of `while let Some(x) = q.pop_front()`). Returns
+    (ok, emptying blocks, emptying edges)."""
+    blocks = {x[0] for x in calls_on_field(body, r'(VecDeque::<T, A>|Vec::<T, A>)::(clear|drain)$', field)}
+    edges = set()
+    for bi, t, ap in calls_on_field(body, r'(VecDeque::<T, A>|Vec::<T, A>)::(pop_front|pop_back|pop)$', field):
+        r = discr_switch_after_call(body, bi)
+        if r:
+            sb, tg, oth = r
+            if 0 in tg:
+                edges.add((sb, tg[0]))
+            elif len(tg) == 1 and 1 in tg:
+                edges.add((sb, oth))
+    succ = [list(x) for x in body.succ]
+    for a, b_ in edges:
+        succ[a] = [x for x in succ[a] if x != b_]
+    open_ = set(body.returns()) & body.reachable(0, avoid=blocks, succ=succ)
+    return (bool(blocks or edges) and not open_, blocks, edges)
+
+
+# ----------------------------------------------------------------------------- the place a value really lives in
+def uniq_defs(b, l):
+    """Live whole-local definitions, textually identical ones (the copies jump threading makes of a shared tail) counted once."""
+    out, seen = [], set()
+    for d in b.whole_defs(l):
+        if d[0] not in b.live:
+            continue
+        x = d[3]
+        key = repr(x.get('rv')) if d[2] == 'assign' else repr((callee_name(x), x.get('args')))
+        if key in seen:
+            continue
+        seen.add(key)
+        out.append(d)
+    return out
+
+
+def mut_borrowed(b):
+    """Locals whose address is taken mutably somewhere in the body (`&mut x` / `&raw mut x`, not a reborrow through it)."""
+    if not hasattr(b, '_mut_borrowed'):
+        b._mut_borrowed = {st['rv']['place']['l'] for bi, j, st in b.assigns() if st['rv']['k'] in ('ref', 'rawptr') and st['rv'].get('mut', True)
+                           and '*' not in place_proj(st['rv']['place'])}
+    return b._mut_borrowed
+
+
+def norm_place(b, p):
+    """The place an operand really reads: copies / moves of the base local, `&x` followed by `*`, and the selection of a field
+    of a tuple / closure environment / struct built in this body are folded (`(*env.0)` with `env = closure(&len)` is `len`)."""
+    for _ in range(24):
+        proj = list(place_proj(p))
+        ds = uniq_defs(b, p['l'])
+        if len(ds) == 1 and ds[0][2] == 'call' and re.search(r'as std::ops::Try>::branch$', callee_name(ds[0][3]) or '') and ds[0][3]['args'] \
+                and len(proj) >= 2 and isinstance(proj[0], dict) and proj[0].get('d') == 'Continue' and op_place(ds[0][3]['args'][0]) is not None:
+            # `(branch(x) as Continue).0` is the Ok / Some payload of x
+            q = op_place(ds[0][3]['args'][0])
+            ty_ = b.local_ty(q['l']) or ''
+            var_ = 'Ok' if ty_.startswith('std::result::Result<') else 'Some'
+            p = {'l': q['l'], 'p': list(place_proj(q)) + [{'d': var_, 'vi': 0 if var_ == 'Ok' else 1}] + proj[1:]}
+            continue
+        if len(ds) != 1 or ds[0][2] != 'assign':
+            break
+        rv = ds[0][3]['rv']
+        if rv['k'] == 'agg' and rv.get('agg') == 'adt' and proj and isinstance(proj[0], dict) and 'd' in proj[0] and proj[0]['d'] == rv.get('variant'):
+            proj = proj[1:]     # downcast to the variant the value was built with
+            p = {'l': p['l'], 'p': proj}
+        if rv['k'] == 'use' and op_place(rv['op']) is not None:
+            if p['l'] in mut_borrowed(b) and not (b.local_ty(p['l']) or '').startswith('{closure@'):
+                # a copy that is changed afterwards through `&mut copy` is no longer the value it was copied from (a closure
+                # value borrowed for `call_mut` keeps the references it captured)
+                break
+            q = op_place(rv['op'])
+            p = {'l': q['l'], 'p': list(place_proj(q)) + proj}
+        elif rv['k'] == 'ref' and proj and proj[0] == '*':
+            q = rv['place']
+            p = {'l': q['l'], 'p': list(place_proj(q)) + proj[1:]}
+        elif rv['k'] == 'agg' and proj and isinstance(proj[0], dict) and 'f' in proj[0]:
+            names = rv.get('names') or [str(i_) for i_ in range(len(rv.get('fields') or []))]
+            f_ = str(proj[0]['f'])
+            idx = names.index(f_) if f_ in names else (proj[0].get('i') if isinstance(proj[0].get('i'), int) and proj[0].get('i') < len(rv.get('fields') or []) else None)
+            if idx is None or op_place(rv['fields'][idx]) is None:
+                break
+            q = op_place(rv['fields'][idx])
+            p = {'l': q['l'], 'p': list(place_proj(q)) + proj[1:]}
+        else:
+            break
+    return p
+
+
 # ----------------------------------------------------------------------------- boolean branches
 def bool_branch(body, start_block, local):
     """Follow straight-line code from `start_block` (exclusive of its terminator's effect) to the
